@@ -49,6 +49,9 @@ class Result(object):
         self.stuck = False
 
 
+_DECOY = None
+
+
 class _NoBind(object):
     """construct a socketserver-based server object without creating a socket: the base class initialiser is replaced by a stub
     for the duration of the call, so that only pymodbus' own constructor code (defaults, option plumbing, context handling) runs"""
@@ -75,22 +78,46 @@ def owner(framing, context, front=None, **opts):
     default` - is part of what the checks exercise; the asyncio UDP server cannot be constructed on this interpreter
     (create_datagram_endpoint no longer takes reuse_address) and keeps the duck-typed stand-in."""
     import socketserver
+    from pymodbus.constants import Defaults
     kw = {k: opts[k] for k in ('broadcast_enable', 'ignore_missing_slaves') if k in opts}
-    if front == 'sync-tcp':
-        with _NoBind(socketserver.ThreadingTCPServer):
-            return sy.ModbusTcpServer(context, framer=FRAMER[framing], address=('127.0.0.1', 0), **kw)
-    if front == 'sync-udp':
-        with _NoBind(socketserver.ThreadingUDPServer):
-            return sy.ModbusUdpServer(context, framer=FRAMER[framing], address=('127.0.0.1', 0), **kw)
-    if front == 'sync-serial':
-        return sy.ModbusSerialServer(context, framer=FRAMER[framing], port='/dev/vmon-no-such-port', timeout=0.01, **kw)
-    if front == 'aio-tcp':
-        srv = aio.ModbusTcpServer(context, framer=FRAMER[framing], address=('127.0.0.1', 0), loop=_loop(), **kw)
-        try:
-            srv.server_factory.close()             # the listening socket is never created
-        except Exception:  # noqa
-            pass
-        return srv
+    saved = None
+    if opts.get('via_defaults'):
+        # the options are configured through the process-wide Defaults and the keywords are left out
+        saved = (Defaults.IgnoreMissingSlaves, Defaults.broadcast_enable)
+        Defaults.IgnoreMissingSlaves = bool(opts.get('ignore_missing_slaves', False))
+        Defaults.broadcast_enable = bool(opts.get('broadcast_enable', False))
+        kw = {}
+
+    def construct(k, ctx):
+        if front == 'sync-tcp':
+            with _NoBind(socketserver.ThreadingTCPServer):
+                return sy.ModbusTcpServer(ctx, framer=FRAMER[framing], address=('127.0.0.1', 0), **k)
+        if front == 'sync-udp':
+            with _NoBind(socketserver.ThreadingUDPServer):
+                return sy.ModbusUdpServer(ctx, framer=FRAMER[framing], address=('127.0.0.1', 0), **k)
+        if front == 'sync-serial':
+            return sy.ModbusSerialServer(ctx, framer=FRAMER[framing], port='/dev/vmon-no-such-port', timeout=0.01, **k)
+        if front == 'aio-tcp':
+            srv = aio.ModbusTcpServer(ctx, framer=FRAMER[framing], address=('127.0.0.1', 0), loop=_loop(), **k)
+            try:
+                srv.server_factory.close()             # the listening socket is never created
+            except Exception:  # noqa
+                pass
+            return srv
+        return None
+    try:
+        srv = construct(kw, context)
+        if srv is not None:
+            # a second, differently configured server of the same kind is alive in the process (an application may run several):
+            # nothing of it may show in the behaviour of the first
+            from pymodbus.datastore import ModbusServerContext as _Ctx
+            global _DECOY
+            _DECOY = construct({'broadcast_enable': not bool(opts.get('broadcast_enable', False)),
+                                'ignore_missing_slaves': not bool(opts.get('ignore_missing_slaves', False))}, _Ctx(slaves={}, single=False))
+            return srv
+    finally:
+        if saved is not None:
+            Defaults.IgnoreMissingSlaves, Defaults.broadcast_enable = saved
     return types.SimpleNamespace(framer=FRAMER[framing], decoder=ServerDecoder(), context=context, threads=[],
                                  broadcast_enable=opts.get('broadcast_enable', False),
                                  ignore_missing_slaves=opts.get('ignore_missing_slaves', False),
@@ -388,9 +415,23 @@ async def _aio_udp(res, framing, context, reads, opts):
 
 
 # ------------------------------------------------------------------ Twisted
+def _tw_build(kind, context, framing, opts):
+    from pymodbus.constants import Defaults
+    cls = tw().ModbusServerFactory if kind == 'factory' else tw().ModbusUdpProtocol
+    ign = bool(opts.get('ignore_missing_slaves', False))
+    if opts.get('via_defaults'):
+        old = Defaults.IgnoreMissingSlaves
+        Defaults.IgnoreMissingSlaves = ign
+        try:
+            return cls(context, framer=FRAMER[framing])
+        finally:
+            Defaults.IgnoreMissingSlaves = old
+    return cls(context, framer=FRAMER[framing], ignore_missing_slaves=ign)
+
+
 def _tw_tcp(res, framing, context, reads, opts):
     from twisted.test import proto_helpers
-    fac = tw().ModbusServerFactory(context, framer=FRAMER[framing], ignore_missing_slaves=opts.get('ignore_missing_slaves', False))
+    fac = _tw_build('factory', context, framing, opts)
     p = fac.buildProtocol(None)
     tr = proto_helpers.StringTransport()
     p.makeConnection(tr)
@@ -421,7 +462,7 @@ def _tw_tcp(res, framing, context, reads, opts):
 
 def _tw_udp(res, framing, context, reads, opts):
     from twisted.test import proto_helpers
-    p = tw().ModbusUdpProtocol(context, framer=FRAMER[framing], ignore_missing_slaves=opts.get('ignore_missing_slaves', False))
+    p = _tw_build('udp', context, framing, opts)
     tr = proto_helpers.FakeDatagramTransport()
     p.makeConnection(tr)
     peers, k = opts.get('peers') or [], -1
@@ -457,7 +498,7 @@ def feed_multi(front, framing, context, conns, order, **opts):
     queues = [list(c) for c in conns]
     if front == 'tw-tcp':
         from twisted.test import proto_helpers
-        fac = tw().ModbusServerFactory(context, framer=FRAMER[framing], ignore_missing_slaves=opts.get('ignore_missing_slaves', False))
+        fac = _tw_build('factory', context, framing, opts)
         protos = []
         for res in results:
             p = fac.buildProtocol(None)
